@@ -89,6 +89,9 @@ Qed.
 Definition wf (r : bool) (l : list str) : Prop :=
   exists k t, l = repeat dd k ++ t /\ Forall proper t /\ (r = true -> k = 0).
 
+Lemma wf_true_proper : forall L, wf true L -> Forall proper L.
+Proof. intros L [k [t [E [P R]]]]. rewrite (R eq_refl) in E. simpl in E. subst. assumption. Qed.
+
 Lemma crun_inv : forall r l k out,
   Forall no_slash l -> Forall proper out -> (r = true -> k = 0) ->
   Forall proper (snd (crun r (k, out) l)) /\ (r = true -> fst (crun r (k, out) l) = 0).
@@ -302,25 +305,100 @@ Proof. intros b p H N U. apply N. apply clean_join_under; assumption. Qed.
 
 Definition s (x : string) : str := la x.
 
-Lemma sanitize_path_unsound :
-  exists b p v, sanitize_path b p = Some v /\ ~ under b v.
+(* the test the three functions used before fix 566455e (and cacheFileFromEtag
+   still uses) does not imply containment *)
+Lemma string_prefix_unsound :
+  exists b v, string_prefix_test b v = true /\ is_abs b = true /\ v = clean v /\ ~ under b v.
 Proof.
-  exists (s "/r"), (s "../r2/x"), (s "/r2/x"). split; [vm_compute; reflexivity|].
+  exists (s "/r"), (s "/r2/x"). split; [vm_compute; reflexivity|]. split; [reflexivity|].
+  split; [vm_compute; reflexivity|].
   intro U. apply underb_iff in U. vm_compute in U. discriminate.
 Qed.
 
-Lemma sanitize_archive_path_unsound :
-  exists d t v, sanitize_archive_path d t = Some v /\ ~ under d v.
+(* ---- filepath.Rel and the component-wise test --------------------------- *)
+
+Lemma strip_common_spec : forall a b,
+  exists c, a = c ++ fst (strip_common a b) /\ b = c ++ snd (strip_common a b).
 Proof.
-  exists (s "/r"), (s "../r2/x"), (s "/r2/x"). split; [vm_compute; reflexivity|].
-  intro U. apply underb_iff in U. vm_compute in U. discriminate.
+  induction a as [|x a IH]; intros b.
+  - exists []. split; reflexivity.
+  - destruct b as [|y b]; [exists []; split; reflexivity|].
+    simpl. destruct (str_eqb x y) eqn:E.
+    + apply str_eqb_eq in E. subst y. destruct (IH b) as [c [E1 E2]].
+      exists (x :: c). split; simpl; congruence.
+    + exists []. split; reflexivity.
 Qed.
 
-Lemma link_target_unsound :
-  exists b old t, link_target b old = Some t /\ ~ under b t.
+Lemma strip_common_prefix : forall a r, strip_common a (a ++ r) = ([], r).
 Proof.
-  exists (s "/T/root"), (s "../root2/secret"), (s "/T/root2/secret"). split; [vm_compute; reflexivity|].
-  intro U. apply underb_iff in U. vm_compute in U. discriminate.
+  induction a as [|x a IH]; intro r; [destruct r; reflexivity|].
+  simpl. rewrite str_eqb_refl. apply IH.
+Qed.
+
+Lemma is_dd_dd : is_dd dd = true. Proof. reflexivity. Qed.
+
+(* what an accepted Rel result says about the components *)
+Lemma rel_accept : forall b p l,
+  rel b p = Some l -> (match l with [] => true | c :: _ => negb (is_dd c) end) = true ->
+  is_abs b = is_abs p /\ cc p = cc b ++ l.
+Proof.
+  intros b p l H A. unfold rel in H.
+  destruct (Bool.eqb (is_abs b) (is_abs p)) eqn:EA; [|discriminate]. apply Bool.eqb_prop in EA.
+  split; [assumption|]. simpl negb in H. cbv iota in H.
+  destruct (strip_common_spec (cc b) (cc p)) as [c [E1 E2]].
+  destruct (fst (strip_common (cc b) (cc p))) as [|b0 B'] eqn:EF.
+  - inversion H; subst l. rewrite app_nil_r in E1.
+    transitivity (c ++ snd (strip_common (cc b) (cc p))); [exact E2 | f_equal; symmetry; exact E1].
+  - destruct (is_dd b0); [discriminate|]. inversion H; subst l. simpl in A. discriminate.
+Qed.
+
+Lemma within_sound : forall b p, within b p = true -> under b p.
+Proof.
+  intros b p H. unfold within in H. destruct (rel b p) as [l|] eqn:R; [|discriminate].
+  destruct (rel_accept b p l R) as [EA EC]; [destruct l; assumption|].
+  split; [assumption | exists l; assumption].
+Qed.
+
+Lemma strictly_within_sound : forall b p, strictly_within b p = true ->
+  is_abs b = is_abs p /\ exists c r, cc p = cc b ++ c :: r.
+Proof.
+  intros b p H. unfold strictly_within in H. destruct (rel b p) as [[|c r]|] eqn:R; try discriminate.
+  destruct (rel_accept b p (c :: r) R H) as [EA EC]. split; [assumption | exists c, r; assumption].
+Qed.
+
+(* for absolute paths the test is exact *)
+Lemma within_complete_abs : forall b p, is_abs b = true -> under b p -> within b p = true.
+Proof.
+  intros b p HB [EA [r E]]. unfold within, rel. rewrite <- EA, HB. simpl. rewrite E, strip_common_prefix. simpl.
+  destruct r as [|c r']; [reflexivity|].
+  pose proof (cc_wf p) as W. rewrite <- EA, HB, E in W. apply wf_true_proper in W.
+  apply Forall_app in W. destruct W as [_ W]. inversion W as [|? ? [_ [_ D]] _]; subst. rewrite D. reflexivity.
+Qed.
+
+Lemma sanitize_path_sound : forall b p v, sanitize_path b p = Some v -> under b v.
+Proof.
+  intros b p v H. unfold sanitize_path, is_within in H.
+  destruct (within b (join [b; p])) eqn:W; [|discriminate]. inversion H; subst. apply within_sound. assumption.
+Qed.
+
+Lemma sanitize_archive_path_sound : forall d t v, sanitize_archive_path d t = Some v -> under d v.
+Proof.
+  intros d t v H. unfold sanitize_archive_path, is_within in H.
+  destruct (within d (join [d; t])) eqn:W; [|discriminate]. inversion H; subst. apply within_sound. assumption.
+Qed.
+
+Lemma link_target_sound : forall b old t, link_target b old = Some t -> under b t.
+Proof.
+  intros b old t H. unfold link_target, is_within in H.
+  destruct (within b (clean (join [b; old]))) eqn:W; [|discriminate]. inversion H; subst. apply within_sound. assumption.
+Qed.
+
+Lemma sanitize_path_exact : forall b p, is_abs b = true ->
+  (sanitize_path b p = Some (join [b; p]) <-> under b (join [b; p])).
+Proof.
+  intros b p HB. unfold sanitize_path, is_within. split.
+  - destruct (within b (join [b; p])) eqn:W; [|discriminate]. intros _. apply within_sound. assumption.
+  - intro U. rewrite (within_complete_abs b _ HB U). reflexivity.
 Qed.
 
 (* ======================================================================== *)
@@ -679,16 +757,17 @@ Qed.
 Lemma under_clean_r : forall r p, under r (clean p) <-> under r p.
 Proof. intros. unfold under. rewrite clean_abs, cc_clean. tauto. Qed.
 
-(* c18_cache_path with one extra hypothesis: the arch-directory name
-   base(dir(path)) is not "..".  (It never is: dir returns a cleaned path; that
-   fact about [base] after [render] is the part not proved here.) *)
-Lemma cache_path_under_root_partial : forall root ustr path p,
+(* the path cachePathFromURL builds, before its containment test *)
+Definition cache_joined (root ustr path : str) : str :=
+  clean (join [root; qescape ustr; base (dir path); base path]).
+
+(* with the arch-directory name base(dir(path)) not "..", the joined path is at
+   or below the root whatever the test says *)
+Lemma cache_joined_under_partial : forall root ustr path,
   is_abs root = true -> In sl ustr -> is_dd (base (dir path)) = false ->
-  cache_path_from_url root ustr path = Some p ->
-  under root p.
+  under root (cache_joined root ustr path).
 Proof.
-  intros root ustr path p HA HS HD HC. unfold cache_path_from_url in HC.
-  destruct (has_prefix _ (clean root)); [|discriminate]. inversion HC; subst; clear HC.
+  intros root ustr path HA HS HD. unfold cache_joined.
   set (e := qescape ustr). set (d := base (dir path)) in *. set (fn := base path).
   assert (join [root; e; d; fn] = join [root; e ++ sl :: d ++ sl :: fn]) as EJ.
   { destruct root as [|c r]; [discriminate|]. unfold join. simpl drop_empty. cbn [join_sl].
@@ -710,14 +789,130 @@ Proof.
   destruct (run_shape fn (0, y :: ys) (base_shape path)) as [E|[[_ E]|E]]; rewrite E; reflexivity.
 Qed.
 
-Lemma cache_path_can_be_root :
-  exists root ustr path e p,
-    cache_path_from_url root ustr path = Some root /\
-    etag_from_response (Some [la "abc"]) = Some e /\
-    cache_file_from_etag (la "/") root e = Some p /\ ~ under root p.
+(* the result of cachePathFromURL is strictly below the root — every root,
+   every URL — because the component-wise test says so *)
+Lemma cache_path_strictly_under : forall root ustr path p,
+  cache_path_from_url root ustr path = Some p ->
+  is_abs root = is_abs p /\ exists c r, cc p = cc root ++ c :: r.
 Proof.
-  exists (la "/t/cache"), (la "https://h/"), (la "/.."). eexists _, _.
-  split; [vm_compute; reflexivity|]. split; [vm_compute; reflexivity|].
-  split; [vm_compute; reflexivity|].
-  intro U. apply underb_iff in U. vm_compute in U. discriminate.
+  intros root ustr path p H. unfold cache_path_from_url in H.
+  destruct (strictly_within (clean root) _) eqn:W; [|discriminate]. inversion H; subst; clear H.
+  apply strictly_within_sound in W. rewrite (clean_abs root), (cc_clean root) in W. exact W.
+Qed.
+
+(* ======================================================================== *)
+(* 11. base of a cleaned absolute path                                       *)
+(* ======================================================================== *)
+
+Lemma strip_id : forall a c, c <> sl -> strip_trailing_slashes (a ++ [c]) = a ++ [c].
+Proof.
+  intros a c H. unfold strip_trailing_slashes. rewrite rev_app_distr. simpl rev at 1. simpl app.
+  simpl drop_while. unfold is_sl. rewrite (neq_sl_eqb c H). simpl. rewrite rev_involutive. reflexivity.
+Qed.
+
+Lemma join_sl_snoc : forall l z, l <> [] -> join_sl (l ++ [z]) = join_sl l ++ sl :: z.
+Proof.
+  induction l as [|x l IH]; intros z NE; [contradiction|].
+  destruct l as [|y t]; [reflexivity|].
+  change (join_sl ((x :: y :: t) ++ [z])) with (x ++ sl :: join_sl ((y :: t) ++ [z])).
+  rewrite IH by discriminate.
+  change (join_sl (x :: y :: t)) with (x ++ sl :: join_sl (y :: t)).
+  rewrite <- app_assoc. reflexivity.
+Qed.
+
+Lemma proper_snoc : forall z, proper z -> exists zi c, z = zi ++ [c] /\ c <> sl.
+Proof.
+  intros z [NS [Sk _]]. destruct z as [|a z']; [discriminate|].
+  destruct (exists_last (l := a :: z')) as [zi [c E]]; [discriminate|].
+  exists zi, c. split; [assumption|]. intro; subst c. apply NS. rewrite E. apply in_or_app. right. left. reflexivity.
+Qed.
+
+Lemma rooted_ends : forall L, L <> [] -> Forall proper L ->
+  exists a c, sl :: join_sl L = a ++ [c] /\ c <> sl.
+Proof.
+  intros L NE F. destruct (exists_last NE) as [L' [z E]]. subst L.
+  apply Forall_app in F. destruct F as [_ Fz]. inversion Fz as [|? ? Pz _]; subst.
+  destruct (proper_snoc z Pz) as [zi [c [Ez Nc]]]. subst z.
+  destruct L' as [|x L'].
+  - exists (sl :: zi), c. split; [reflexivity | assumption].
+  - rewrite join_sl_snoc by discriminate.
+    exists (sl :: join_sl (x :: L') ++ sl :: zi), c. split; [|assumption].
+    simpl. rewrite <- app_assoc. reflexivity.
+Qed.
+
+Lemma last_cons_ne : forall (A : Type) (x : A) l d, l <> [] -> last (x :: l) d = last l d.
+Proof. intros A x [|y l] d H; [contradiction | reflexivity]. Qed.
+
+Lemma base_rooted : forall L, L <> [] -> Forall proper L -> base (sl :: join_sl L) = last L [].
+Proof.
+  intros L NE F. destruct (rooted_ends L NE F) as [a [c [E Nc]]].
+  unfold base. rewrite E at 1. rewrite strip_id by assumption. rewrite <- E.
+  change (split (sl :: join_sl L)) with ([] :: split (join_sl L)).
+  rewrite split_join_sl; [| assumption | eapply Forall_impl; [|exact F]; apply proper_no_slash].
+  apply last_cons_ne. assumption.
+Qed.
+
+Lemma last_proper : forall L, L <> [] -> Forall proper L -> proper (last L []).
+Proof.
+  intros L NE F. destruct (exists_last NE) as [L' [z E]]. subst. rewrite last_last.
+  apply Forall_app in F. destruct F as [_ F]. inversion F; assumption.
+Qed.
+
+(* filepath.Base of an absolute cleaned path is "/" or a proper component *)
+Lemma base_clean_abs : forall x, is_abs x = true -> base (clean x) = [sl] \/ proper (base (clean x)).
+Proof.
+  intros x H. unfold clean. rewrite H. pose proof (cc_wf x) as W. rewrite H in W.
+  destruct (cc x) as [|c L] eqn:E.
+  - left. reflexivity.
+  - right. change (render true (c :: L)) with (sl :: join_sl (c :: L)).
+    pose proof (wf_true_proper _ W) as F.
+    rewrite base_rooted by (discriminate || assumption). apply last_proper; [discriminate | assumption].
+Qed.
+
+Lemma drop_while_snoc : forall f a x, f x = false -> exists y, drop_while f (a ++ [x]) = y ++ [x].
+Proof.
+  intros f a x H. induction a as [|c a [y IH]]; simpl.
+  - rewrite H. exists []. reflexivity.
+  - destruct (f c); [exists y; assumption|]. exists (c :: a). reflexivity.
+Qed.
+
+Lemma upto_last_slash_abs : forall p, is_abs p = true -> is_abs (upto_last_slash p) = true.
+Proof.
+  intros [|c p] H; [discriminate|]. simpl in H. apply Ascii.eqb_eq in H. subst c.
+  unfold upto_last_slash. simpl rev.
+  destruct (drop_while_snoc (fun c => negb (is_sl c)) (rev p) sl) as [y E]; [reflexivity|].
+  rewrite E, rev_app_distr. reflexivity.
+Qed.
+
+Lemma base_dir_not_dd : forall p, is_abs p = true -> is_dd (base (dir p)) = false.
+Proof.
+  intros p H. unfold dir.
+  destruct (base_clean_abs (upto_last_slash p) (upto_last_slash_abs p H)) as [E|[_ [_ D]]].
+  - rewrite E. reflexivity.
+  - assumption.
+Qed.
+
+(* for the URLs the callers produce the joined path is at or below the root
+   whatever the test says, so the test only ever refuses the root itself *)
+Lemma cache_joined_under : forall root ustr path,
+  is_abs root = true -> is_abs path = true -> In sl ustr ->
+  under root (cache_joined root ustr path).
+Proof.
+  intros root ustr path HR HP HS.
+  apply cache_joined_under_partial; auto. apply base_dir_not_dd. assumption.
+Qed.
+
+Lemma cache_path_accepts : forall root ustr path,
+  is_abs root = true -> is_abs path = true -> In sl ustr ->
+  cc (cache_joined root ustr path) <> cc root ->
+  cache_path_from_url root ustr path = Some (cache_joined root ustr path).
+Proof.
+  intros root ustr path HR HP HS NE.
+  pose proof (cache_joined_under root ustr path HR HP HS) as [EA [r E]].
+  unfold cache_path_from_url. fold (cache_joined root ustr path).
+  unfold strictly_within, rel. rewrite clean_abs, cc_clean, <- EA, HR. simpl.
+  rewrite E, strip_common_prefix. simpl.
+  destruct r as [|c r']; [exfalso; apply NE; rewrite E, app_nil_r; reflexivity|].
+  pose proof (cc_wf (cache_joined root ustr path)) as W. rewrite <- EA, HR, E in W. apply wf_true_proper in W.
+  apply Forall_app in W. destruct W as [_ W]. inversion W as [|? ? [_ [_ D]] _]; subst. rewrite D. reflexivity.
 Qed.
